@@ -436,7 +436,15 @@ pub fn encode_plan(plan: &ChunkPlan, salt: u8) -> Coded {
     c
 }
 
-pub const CHUNK_EXTS: [&str; 3] = [";x", ";name=value", ";a=\"q\""];
+pub const CHUNK_EXTS: [&str; 6] = [
+    ";x",
+    ";name=value",
+    ";a=\"q\"",
+    // chunk extensions are not bounded by the grammar: lines longer than 20 bytes, longer than 100 bytes
+    ";name=\"a longer value\"",
+    ";ext=abcdefghijklmnopqrstuvwxyz",
+    ";sig=0123456789abcdef0123456789abcdef0123456789abcdef0123456789abcdef0123456789abcdef0123456789abcdef0123456789abcdef;more",
+];
 pub const TRAILERS: [&str; 3] = ["X-T: 1", "Checksum: abc", "t:"];
 
 /// Trailer field lines are not bounded the way chunk-size lines are: lines of 98..=102 bytes around a
@@ -540,7 +548,9 @@ pub enum TeClass {
 }
 
 pub fn classify_te(v: Option<&[u8]>) -> TeClass {
-    match v {
+    // several field lines (written with '\n' between them by the table) are one list
+    let joined: Option<Vec<u8>> = v.map(|b| b.iter().map(|c| if *c == b'\n' { b',' } else { *c }).collect());
+    match joined.as_deref() {
         None => TeClass::Absent,
         Some(b) => match std::str::from_utf8(b) {
             Err(_) => TeClass::Other,
@@ -598,9 +608,6 @@ pub fn body_rule(method: &str, status: u16, resp_http10: bool, cl: ClClass, te: 
         }
         return FrameExp::Is(Framing::Chunked, if cl == ClClass::Absent { "chunked" } else { "chunked-over-length" });
     }
-    if te == TeClass::Chunked && resp_http10 && is_3xx && cl == ClClass::Absent {
-        return FrameExp::DontCare("HTTP/1.0 3xx whose only framing header is Transfer-Encoding: chunked");
-    }
     match cl {
         ClClass::NonNumeric => FrameExp::Error("non-numeric-content-length"),
         ClClass::Num(n) => FrameExp::Is(Framing::Length(n), if te == TeClass::Chunked { "length-http10-ignores-chunked" } else { "length" }),
@@ -608,8 +615,9 @@ pub fn body_rule(method: &str, status: u16, resp_http10: bool, cl: ClClass, te: 
             if is_3xx && te == TeClass::Absent {
                 FrameExp::Is(Framing::NoBody, "redirect-without-framing")
             } else if is_3xx {
-                // a 3xx with some other Transfer-Encoding only: is that "a framing header"?
-                FrameExp::DontCare("3xx with a non-chunked Transfer-Encoding and no Content-Length")
+                // the exception is for a redirect "without ANY framing header"; a Transfer-Encoding field is
+                // one, whatever it names (and on an HTTP/1.0 response, where chunked is not applied, too)
+                FrameExp::Is(Framing::Close, if te == TeClass::Chunked { "close-http10-3xx-ignores-chunked" } else { "close-3xx-with-other-coding" })
             } else {
                 FrameExp::Is(Framing::Close, if te == TeClass::Chunked { "close-http10-ignores-chunked" } else { "close" })
             }
